@@ -283,6 +283,12 @@ func (e *Eval) instr(fr *Frame, in ssa.Instruction, st *State, cur string) (stri
 			e.safetyOb(fr, in, "index", cur, and("(bvsle #x0000000000000000 "+i64+")", "(bvslt "+i64+" "+bvLit(64, uint64(at.Len()))+")"))
 			if p.A != nil && p.A.Kind == "array" {
 				fr.vals[x] = Val{A: &Addr{Kind: "elem", Comp: e.elemComp(at.Elem()), Base: p.A.Base, Idx: i64, Typ: at.Elem(), Root: at.Elem()}}
+			} else if p.A != nil && p.A.Kind == "field" && len(p.A.Path) == 0 {
+				// an array-typed struct field: its elements live in a
+				// component of their own, keyed by the object and the index
+				comp := "FA." + strings.TrimPrefix(p.A.Comp, "H.")
+				c.DeclComp(comp, fmt.Sprintf("(Array Int (Array (_ BitVec 64) %s))", c.Sort(at.Elem())))
+				fr.vals[x] = Val{A: &Addr{Kind: "elem", Comp: comp, Base: p.A.Base, Idx: i64, Typ: at.Elem(), Root: at.Elem()}}
 			} else {
 				c.Unsupported("IndexAddr through array pointer in %s", fr.fn)
 				fr.vals[x] = Val{A: &Addr{Kind: "elem", Comp: e.elemComp(at.Elem()), Base: c.Fresh("arr", "Int"), Idx: i64, Typ: at.Elem(), Root: at.Elem()}}
@@ -419,6 +425,7 @@ func (e *Eval) instr(fr *Frame, in ssa.Instruction, st *State, cur string) (stri
 		// edges handled by caller
 	case *ssa.Send:
 		ch := e.val(fr, x.Chan)
+		e.atChanSend(fr, e.val(fr, x.X), x.X.Type(), st, cur, x.Pos())
 		e.blockingOb(fr, in, "chan-send", st, cur)
 		e.ghostEvent(st, "send", ch.T)
 	case *ssa.Select:
@@ -428,6 +435,9 @@ func (e *Eval) instr(fr *Frame, in ssa.Instruction, st *State, cur string) (stri
 		for _, s := range x.States {
 			ch := e.val(fr, s.Chan)
 			_ = ch
+			if s.Dir == types.SendOnly && s.Send != nil {
+				e.atChanSend(fr, e.val(fr, s.Send), s.Send.Type(), st, cur, x.Pos())
+			}
 		}
 		fr.vals[x] = e.havocVal(fr.prefix+x.Name(), x.Type(), cur)
 		c.Assume("select: chosen case and received values are arbitrary; blocking is not modelled")
